@@ -36,6 +36,22 @@ func headerValue(t *Type, pv reflect.Value) reflect.Value {
 // form its decoder produces.
 func Build(t *Type, v *Values) sms.PDU {
 	p := t.New()
+	Fill(t, p, v)
+	return p
+}
+
+// SetHeaderLength stores an arbitrary value in the PDU's header length word (encoders must not trust it).
+func SetHeaderLength(t *Type, p sms.PDU, n uint32) {
+	h := headerValue(t, reflect.ValueOf(p))
+	if t.HKind == "smpp" {
+		h.FieldByName("Length").SetUint(uint64(n))
+	} else {
+		h.FieldByName("TotalLength").SetUint(uint64(n))
+	}
+}
+
+// Fill stores v into an existing PDU object (every table field is overwritten; absent collections become nil).
+func Fill(t *Type, p sms.PDU, v *Values) {
 	pv := reflect.ValueOf(p)
 	h := headerValue(t, pv)
 	switch t.HKind {
@@ -79,13 +95,15 @@ func Build(t *Type, v *Values) sms.PDU {
 				fv.SetString(string(b))
 			} else {
 				if len(b) == 0 {
-					continue // leave nil
+					fv.Set(reflect.Zero(fv.Type())) // nil
+					continue
 				}
 				fv.SetBytes(append([]byte(nil), b...))
 			}
 		case "list":
 			l := x.([][]byte)
 			if len(l) == 0 {
+				fv.Set(reflect.Zero(fv.Type()))
 				continue
 			}
 			s := make([]string, len(l))
@@ -96,6 +114,7 @@ func Build(t *Type, v *Values) sms.PDU {
 		case "tlv":
 			l := x.([]TLV)
 			if len(l) == 0 {
+				fv.Set(reflect.Zero(fv.Type()))
 				continue
 			}
 			switch fv.Interface().(type) {
@@ -116,7 +135,6 @@ func Build(t *Type, v *Values) sms.PDU {
 			}
 		}
 	}
-	return p
 }
 
 // HeaderLength reads the length word stored in the PDU's header struct.
